@@ -112,7 +112,7 @@ theorem C11_routing_blind (p : PassIn) (a a' : DevAcc) (nd : Bytes × Dev) (g : 
    2; client 1 gets its reply, client 2's record is untouched although its action sits in the same queue and targets the
    same node. -/
 example : Two.w3.clients.map (fun c => c.cmd.map fun k => k.names) = [some [['a', '1']], some [['a', '1']]] ∧
-    Two.w3.devs.map (fun nd => nd.2.acts.map fun a => (a.clientId, a.arglist)) = [[(1, 0), (2, 1)]] :=
+    Two.w3.devs.map (fun nd => nd.2.acts.map fun a => (a.clientId, a.arglist)) = [[(1, 1), (2, 2)]] :=
   ⟨Two.reached.2.2.1, Two.reached.2.2.2.2.1⟩
 example :
     ((devStep Two.p4 Two.w3x ⟨Two.xs4⟩ ([65], (Two.w3x.devs.map (·.2)).headD Two.devA)).2.2.1.map outCid) = [some 1, none] ∧
@@ -188,7 +188,7 @@ theorem C11_Enq_spelled (cid : Nat) (w w' : W) (cmd cmd' : Option CmdC) (h : Enq
    described -/
 example : Iso Two.w0 ∧ Iso Two.w3 := ⟨Two.iso0, Two.iso3⟩
 example : ids Two.w3 = [1, 2] ∧ Two.w3.nextId = 3 ∧
-    Two.w3.devs.map (fun nd => nd.2.acts.map fun a => (a.clientId, a.arglist)) = [[(1, 0), (2, 1)]] :=
+    Two.w3.devs.map (fun nd => nd.2.acts.map fun a => (a.clientId, a.arglist)) = [[(1, 1), (2, 2)]] :=
   ⟨Two.reached.1, Two.reached.2.2.2.2.2.1, Two.reached.2.2.2.2.1⟩
 
 /-! ## 3. One command per client -/
@@ -301,14 +301,14 @@ theorem C11_result_scope (w : W) (g : Nat) (c : Cli) (k : CmdC) (h : ArgScope w)
 theorem C11_withStore_spelled (w : W) (k : CmdC) (err : ActErr) :
     Reply.withStore w k err = { k with error := k.error || (err != .success), args := (storeArgs w k.al).map argC } := rfl
 
-/- non-vacuity: in the example pass the device runs `setplugstate` for client 1's action (arglist 0): afterwards arglist 0 says
-   `a1` is on and client 1's reply says so, while client 2's arglist 1 — same node, same device, same queue — still says
-   unknown; client 2 (arglist 1 ≠ 0) satisfies the hypotheses of the theorem in `Two.w3`, and the action of client 1 in the
+/- non-vacuity: in the example pass the device runs `setplugstate` for client 1's action (arglist 1): afterwards arglist 1 says
+   `a1` is on and client 1's reply says so, while client 2's arglist 2 — same node, same device, same queue — still says
+   unknown; client 2 (arglist 2 ≠ 0) satisfies the hypotheses of the theorem in `Two.w3`, and the action of client 1 in the
    queue does not carry its arglist id -/
-example : (storeArgs Two.w3x 0).map (fun a => psNum a.state) = [0] ∧ (storeArgs Two.w4 0).map (fun a => psNum a.state) = [2] ∧
-    (storeArgs Two.w3x 1).map (fun a => psNum a.state) = [0] ∧ (storeArgs Two.w4 1).map (fun a => psNum a.state) = [0] := by
+example : (storeArgs Two.w3x 1).map (fun a => psNum a.state) = [0] ∧ (storeArgs Two.w4 1).map (fun a => psNum a.state) = [2] ∧
+    (storeArgs Two.w3x 2).map (fun a => psNum a.state) = [0] ∧ (storeArgs Two.w4 2).map (fun a => psNum a.state) = [0] := by
   decide +kernel
-example : ArgScope Two.w3 ∧ ((cliRec Two.w3 2).map fun c => c.cmd.map (·.al)) = some (some 1) :=
+example : ArgScope Two.w3 ∧ ((cliRec Two.w3 2).map fun c => c.cmd.map (·.al)) = some (some 2) :=
   ⟨Two.iso3.2, by decide +kernel⟩
 
 /-! ## 5. Departure -/
@@ -360,10 +360,10 @@ example : (clientPass { Two.w3 with sys := [], caps := [(1000, 0)] } ((Two.w3.cl
     (Two.pErr.envs.find? (·.fd == 1000))).2.isNone = true := by decide +kernel
 example : ids Two.w3d = [2] ∧
     (cliRec Two.w3d 2).map (fun c => (c.toBuf, c.cmd.map (·.pending))) = (cliRec Two.w3 2).map (fun c => (c.toBuf, c.cmd.map (·.pending))) ∧
-    Two.w3d.devs.map (fun nd => nd.2.acts.map fun a => (a.clientId, a.arglist)) = [[(1, 0), (2, 1)]] := by decide +kernel
+    Two.w3d.devs.map (fun nd => nd.2.acts.map fun a => (a.clientId, a.arglist)) = [[(1, 1), (2, 2)]] := by decide +kernel
 example : (daemonPass { Two.w3d with pendingX := Two.xs4 } Two.p4).2.all (fun l => !l.startsWith "O ABORT") = true ∧
     (cliRec Two.w4d 2).map (fun c => (c.toBuf, c.cmd.map (·.pending))) = (cliRec Two.w3 2).map (fun c => (c.toBuf, c.cmd.map (·.pending))) ∧
-    Two.w4d.devs.map (fun nd => nd.2.acts.map fun a => (a.clientId, a.arglist)) = [[(2, 1)]] := by decide +kernel
+    Two.w4d.devs.map (fun nd => nd.2.acts.map fun a => (a.clientId, a.arglist)) = [[(2, 2)]] := by decide +kernel
 
 /-! ## 6. Back-pressure -/
 
